@@ -22,6 +22,7 @@ the model):
 import os, itertools, collections, subprocess, time
 from concurrent.futures import ThreadPoolExecutor
 import vlib
+import mainlib
 
 HS = vlib.tu_harness(['hmain.c', 'h_handshake.c', 'wire_net.c', 'wire_srv.c', 'wire_cli.c'], 'server',
                      ['sendto', 'recvfrom', 'recv', 'recvmsg', 'time', 'write_tun', 'read_tun', 'system', 'rand', 'sleep',
@@ -380,7 +381,7 @@ def run_pool(exe, lines, workdir, tag, chunk=24, workers=16, timeout=1500):
 
 
 def check(rep):
-    ctx = vlib.prepare(rep, harnesses={'hs': HS}, sanitize=False)
+    ctx = vlib.prepare(rep, harnesses={'hs': HS, 'climain': mainlib.CLIMAIN}, sanitize=False)
     cases, stats = gen_cases(rep.seed, rep.tier)
     lines = [c.line() for c in cases]
     rep.cov['rule'] = ('G cases (fuzz = 0) of harness/h_handshake.c: quick = pairwise covering array over {query case, 8-bit, punct, answer case, '
@@ -483,6 +484,7 @@ def check(rep):
             # a disagreement is a concrete input: the real client does something the proved decision logic does not
             rep.add_violation('model-mismatch', text, dict(kind='input', case=l, observed=io, expected=mo))
     second_session_stage(rep, ctx)
+    mainlib.settings_stage(rep, ctx)
     if not rep.violations:
         ctx.report_broken()
     return rep
